@@ -173,21 +173,22 @@ Proof.
   destruct r; inversion H. reflexivity.
 Qed.
 
-(* FromCache on a miss, by the outcome of the one compile it runs *)
+(* FromCache on a miss, by the outcome of the one compile it runs: the file is loaded under the
+   name as given (FromFile), the cache is keyed by the resolved name *)
 Lemma from_cache_miss : forall s name,
   s_debug s = false -> assoc_get (cache_key name) (s_cache s) = None ->
   s_step s (OFromCache name) =
-    match fst (s_compile_file s (cache_key name)) with
+    match fst (s_compile_file s name) with
     | Ok _ =>
         (mkS (s_files s) true (s_btags s) (s_bfilters s) ((cache_key name, s_stamp s) :: s_cache s)
-             (s_debug s) (s_stamp s + 1) (s_fetches s + snd (s_compile_file s (cache_key name))),
+             (s_debug s) (s_stamp s + 1) (s_fetches s + snd (s_compile_file s name)),
          RTpl (s_stamp s))
     | Err _ => (with_created s, RErr)
     | _ => (with_created s, RUnmod)
     end.
 Proof.
   intros s name Hd Hm. unfold cache_key in *. unfold s_step. rewrite Hd. cbv zeta. rewrite Hm.
-  unfold fresh_tpl. destruct (s_compile_file s (fsloader_abs [] name)) as [r n].
+  unfold fresh_tpl. destruct (s_compile_file s name) as [r n].
   cbn [fst snd]. destruct r; cbn; rewrite ?Hd; reflexivity.
 Qed.
 
@@ -222,7 +223,7 @@ Proof.
     + destruct (assoc_get (cache_key name) (s_cache s)) as [st|] eqn:Hg.
       * rewrite (from_cache_hit _ _ _ Hd Hg). cbn [fst]. auto.
       * rewrite (from_cache_miss _ _ Hd Hg).
-        destruct (fst (s_compile_file s (cache_key name))); cbn; auto.
+        destruct (fst (s_compile_file s name)); cbn; auto.
   - cbn. auto.
   - cbn. auto.
   - cbn. auto.
@@ -310,7 +311,7 @@ Proof.
     + destruct (assoc_get (cache_key name) (s_cache s)) as [st|] eqn:Hg.
       * rewrite (from_cache_hit _ _ _ Hd Hg). exact Hwf.
       * rewrite (from_cache_miss _ _ Hd Hg).
-        destruct (fst (s_compile_file s (cache_key name)));
+        destruct (fst (s_compile_file s name));
           try (apply (cache_wf_keep s _ Hwf); cbn; [reflexivity|lia]).
         intros k st Hin. cbn [fst s_cache s_stamp] in *.
         destruct Hin as [Heq|Hin].
@@ -347,7 +348,7 @@ Lemma sp_miss_fills :
     (forall k, str_eqb k (cache_key name) = false -> assoc_get k (s_cache s') = assoc_get k (s_cache s)).
 Proof.
   intros s s' name st Hd Hm Hstep. rewrite (from_cache_miss _ _ Hd Hm) in Hstep.
-  destruct (fst (s_compile_file s (cache_key name))); try discriminate Hstep.
+  destruct (fst (s_compile_file s name)); try discriminate Hstep.
   injection Hstep as Hs' Hst. subst s' st. cbn [s_cache assoc_get].
   rewrite sp_str_eqb_refl. split; [reflexivity|]. split; [reflexivity|].
   intros k Hk. rewrite Hk. reflexivity.
@@ -365,7 +366,7 @@ Proof.
   - destruct (assoc_get (cache_key name) (s_cache s)) as [st|] eqn:Hg.
     + rewrite (from_cache_hit _ _ _ Hd Hg) in Hstep. discriminate Hstep.
     + rewrite (from_cache_miss _ _ Hd Hg) in Hstep.
-      destruct (fst (s_compile_file s (cache_key name))); try discriminate Hstep;
+      destruct (fst (s_compile_file s name)); try discriminate Hstep;
         injection Hstep as Hs'; subst s'; reflexivity.
 Qed.
 
